@@ -541,6 +541,8 @@ func TestVerifNative(t *testing.T) {
 					done <- "VERIF-REPLAY: REPRODUCED assertion: " + x.Msg
 				case rt.AssumptionFailed:
 					done <- "VERIF-REPLAY: NOT-REPRODUCED the model violates an assumption natively"
+				case rt.HarnessError:
+					done <- "VERIF-REPLAY: ERROR " + x.Msg
 				default:
 					done <- fmt.Sprint("VERIF-REPLAY: REPRODUCED panic: ", r)
 				}
@@ -593,6 +595,9 @@ func TestVerifNative(t *testing.T) {
 }
 
 func replayFile(vdir, id, path string) int {
+	if abs, err := filepath.Abs(path); err == nil {
+		path = abs
+	}
 	var rf replayFileT
 	b, err := os.ReadFile(path)
 	if err != nil {
